@@ -298,3 +298,20 @@ func C08_RespondModule() { focus = "C08"; sceneRespond(rsMod) }
 
 // a provider address longer than 20 bytes (stateless validation admits it)
 func C13_WithdrawLong() { focus = "C13"; sceneWithdraw(WdOpts{LenP0: 21, LenP1: 20}) }
+
+// ---- history skeleton from an empty state (thorough tier)
+func C01_Skeleton() { focus = "C01"; sceneSkeleton() }
+func C02_Skeleton() { focus = "C02"; sceneSkeleton() }
+func C03_Skeleton() { focus = "C03"; sceneSkeleton() }
+func C09_Skeleton() { focus = "C09"; sceneSkeleton() }
+func C10_Skeleton() { focus = "C10"; sceneSkeleton() }
+func C11_Skeleton() { focus = "C11"; sceneSkeleton() }
+func C12_Skeleton() { focus = "C12"; sceneSkeleton() }
+func C13_Skeleton() { focus = "C13"; sceneSkeleton() }
+func C16_Skeleton() { focus = "C16"; sceneSkeleton() }
+func C20_Skeleton() { focus = "C20"; sceneSkeleton() }
+
+// ---- binding life history from an empty state
+func C03_BindingHistory() { focus = "C03"; sceneBindingHistory() }
+func C14_BindingHistory() { focus = "C14"; sceneBindingHistory() }
+func C15_BindingHistory() { focus = "C15"; sceneBindingHistory() }
